@@ -122,3 +122,82 @@ SUBS = [
     Sub("py_encoder_vs_layout", strategy=enc_case, oracle=enc_oracle, examples={"quick": 2500, "thorough": 80000}),
     Sub("py_decoder_vs_layout", strategy=datagram(), oracle=dec_oracle, examples={"quick": 4000, "thorough": 160000}),
 ]
+
+
+# ---------------------------------------------------------------------------
+# trxcon differential (unmodified trx_if.c behind c/drv_trxif.c)
+from harness import trxif, cbuild          # noqa: E402
+from harness.core import Ctx               # noqa: E402
+
+_t = {}
+
+
+def prepare(ctx):
+    _t["exe"] = trxif.build(ctx)
+
+
+def trx():
+    import os
+    if "exe" not in _t:
+        prepare(Ctx("C04", "quick", 1))
+    k = ("t", os.getpid())          # one driver process per (possibly forked) worker
+    if k not in _t:
+        _t[k] = trxif.TrxIf(_t["exe"])
+    return _t[k]
+
+
+def c_rx_oracle(case):
+    """toolkit -> trxcon: every v0 burst FakeTRX sends must be decoded by trxcon to the same values"""
+    m, legacy = case["m"], case["legacy"]
+    data = bytes(tk.build_msg(m).gen_msg(legacy))
+    try:
+        out = trxif.TrxIf.parse(trx().req("data " + data.hex()))
+    except cbuild.DriverCrash as c:
+        raise Violation("c04:trxcon-crash:" + c.signature(), c.stderr[-500:])
+    bi = out["burst_ind"]
+    if bi is None:
+        raise Violation("c04:trxcon-rejects-toolkit-burst", "rc=%r for v0 burst len=%d legacy=%s" % (out["rc"], len(m["soft"]), legacy))
+    exp = {"fn": m["fn"], "tn": m["tn"], "rssi": m["rssi"], "toa256": m["toa256"], "len": len(m["soft"]), "soft": list(m["soft"])}
+    for k, v in exp.items():
+        if bi[k] != v:
+            raise Violation("c04:trxcon-decodes-differently:%s" % k, "%s: toolkit sent %r, trxcon got %r" % (
+                k, v if k != "soft" else "...", bi[k] if k != "soft" else "..."))
+    if out["rts"] != ((m["fn"] + 3) % ref_trxd.HYPERFRAME, m["tn"]):
+        raise Violation("c04:trxcon-rts", "RTS %r for fn=%d tn=%d (fn_advance 3)" % (out["rts"], m["fn"], m["tn"]))
+    return (["c_rx/bl%d/%s" % (len(m["soft"]), "legacy" if legacy else "plain")], any(data[:6]))
+
+
+def c_tx_oracle(case):
+    """trxcon -> toolkit: every burst trxcon emits must be parsed by the toolkit to the values trxcon was given"""
+    bits = case["bits"]
+    line = "burst %d %d %d %s" % (case["fn"], case["tn"], case["pwr"], bytes(bits).hex() if bits else "-")
+    try:
+        out = trxif.TrxIf.parse(trx().req(line))
+    except cbuild.DriverCrash as c:
+        raise Violation("c04:trxcon-crash:" + c.signature(), c.stderr[-500:])
+    if len(out["data"]) != 1:
+        raise Violation("c04:trxcon-tx-count", "%d datagrams for one burst request" % len(out["data"]))
+    msg = tk.new_msg("tx")
+    try:
+        msg.parse_msg(out["data"][0])
+    except ValueError as e:
+        raise Violation("c04:toolkit-rejects-trxcon-burst", "%r for %s" % (e, out["data"][0][:12].hex()))
+    got = tk.msg_fields(msg)
+    exp = {"ver": 0, "fn": case["fn"], "tn": case["tn"], "pwr": case["pwr"], "bits": [int(b) for b in bits] if bits else None}
+    for k, v in exp.items():
+        if got[k] != v:
+            raise Violation("c04:toolkit-decodes-trxcon-differently:%s" % k, "%s: trxcon was given %r, toolkit parsed %r" % (
+                k, v if k != "bits" else "...", got[k] if k != "bits" else "..."))
+    return (["c_tx/bl%d" % len(bits)], bool(bits) and (case["fn"] or case["tn"] or case["pwr"]))
+
+
+c_rx_case = st.fixed_dictionaries({"m": S.rx_msg(vers=(0,)), "legacy": st.sampled_from((True, True, False))})
+c_tx_case = st.fixed_dictionaries({"fn": S.fn(), "tn": st.integers(0, 7), "pwr": S.biased(0, 255),
+                                   "bits": st.one_of(S.hard_bits(148), S.hard_bits(148), S.hard_bits(444), st.just(b""))})
+
+SUBS += [
+    Sub("c_rx_toolkit_to_trxcon", strategy=c_rx_case, oracle=c_rx_oracle, examples={"quick": 2500, "thorough": 60000},
+        shards={"quick": 1, "thorough": 8}, prepare=prepare),
+    Sub("c_tx_trxcon_to_toolkit", strategy=c_tx_case, oracle=c_tx_oracle, examples={"quick": 2500, "thorough": 60000},
+        shards={"quick": 1, "thorough": 8}, prepare=prepare),
+]
